@@ -298,7 +298,17 @@ theorem wfRunning_spec {I : Inst} (h : I.wfRunning = true) {t : Nat} (ht : t < I
     (hr : I.running t = true) : (I.task t).prevW < I.nW ∧ (I.task t).prevS < (I.task t).nS := by
   simp only [Inst.wfRunning, List.all_eq_true, List.mem_range] at h
   have := h t ht
-  simpa [hr] using this
+  simp [hr] at this
+  exact ⟨this.1.1.1, this.1.1.2⟩
+
+theorem wfRunning_compat {I : Inst} (h : I.wfRunning = true) {t : Nat} (ht : t < I.nT)
+    (hr : I.running t = true) :
+    compatible (I.worker (I.task t).prevW) ((I.task t).strat (I.task t).prevS) = true ∧
+    I.parentVars t = [] := by
+  simp only [Inst.wfRunning, List.all_eq_true, List.mem_range] at h
+  have := h t ht
+  simp [hr] at this
+  exact ⟨this.1.2, this.2⟩
 
 theorem wfParents_spec {I : Inst} (h : I.wfParents = true) {c : Nat} (hc : c < I.nT) :
     (I.parentVars c).length ≤ I.nParents c := by
